@@ -68,6 +68,14 @@ def run(rep, tier):
                         cases.append((js, cname, layout, "case_cxof", (a, nm, cl, 9, 33, fixed),
                                       "cxof%s name %s custom %d declared %d" % (sfx, "NULL" if nm is None else len(nm), cl, fixed),
                                       "ascon_xof%s_init_custom" % sfx))
+    # a re-initialised state gives the specification's digest as a fresh one does
+    for js, cname, layout, maxs, units in prep:
+        for va in (False, True):
+            nm = "ascon_xof%s" % ("a" if va else "")
+            for (f, pre, sq) in ((("plain", 8, 0), ("plain", 5, 3), ("fixed", 0, 0), ("custom", 0, 0)) if tier == "quick" else
+                                 tuple((f, pre, sq) for f in ("plain", "fixed", "custom") for pre in (0, 5, 8, 16, 64) for sq in (0, 3, 8))):
+                cases.append((js, cname, layout, "case_xof_reinit", (va, f, pre, sq, 9, 16),
+                              "%s reinit of a %s state after %d in, %d out" % (nm, f, pre, sq), nm + "_reinit"))
     # structural, all lengths: no size_t length loses its upper bits on the way to a bound or an address
     from . import widths
     rep.rule("C03.D2", "length arithmetic keeps the full width of size_t (no 32-bit mask or unguarded narrowing before control/addressing)")
